@@ -266,7 +266,8 @@ def unit_stage_contracts_b(tier):
 
 def unit_stage_contracts_c(tier):
     """volumes, free energy, RDF and collective jumps as functions of wrapped positions, distances and counts (C08, C09, C11, C12)"""
-    return _stage('C07.stage_contracts.grids_rdf_collective', [('c08', ['unit_volume']), ('c09', ['unit_free_energy']), ('c11', ['unit_between_species']), ('c12', ['unit_compute'])])
+    return _stage('C07.stage_contracts.grids_rdf_collective', [('c08', ['unit_volume']), ('c09', ['unit_free_energy']), ('c11', ['unit_between_species']), ('c12', ['unit_compute']),
+                                                                ('c10', ['unit_percolate'])])
 
 
 # ---------------------------------------------------------------------------------------------------------------
@@ -295,6 +296,15 @@ def _analyse(traj, sites, res=None):
     except ValueError:
         out['jumps'] = []
     out['tmatrix'] = np.asarray(tr.matrix())
+    # the same pipeline with an inner-site fraction below one and a minimal residence (candidate jumps)
+    tr_in = traj.transitions_between_sites(sites, 'Li', site_radius=1.0, site_inner_fraction=0.55)
+    out['events(inner 0.55)'] = sorted(tuple(int(x) for x in r) for r in tr_in.events.to_numpy())
+    for mres in (0, 2):
+        try:
+            jd = tr_in.jumps(minimal_residence=mres).data[['atom index', 'start site', 'destination site', 'start time', 'stop time']].to_numpy()
+            out[f'jumps(inner 0.55, residence {mres})'] = sorted(tuple(int(x) for x in r) for r in jd)
+        except ValueError:
+            out[f'jumps(inner 0.55, residence {mres})'] = []
     from gemdat.rdf import radial_distribution_between_species
     r = radial_distribution_between_species(trajectory=traj, specie_1='Li', specie_2='O', max_dist=3.0, resolution=0.5)
     out['rdf'] = np.asarray(r.y)
@@ -362,8 +372,8 @@ def replay_metamorphic(inputs):
     inv = {int(np.where(np.array(li) == perm[li][k])[0][0]): k for k in range(len(li))}  # old filtered index -> new filtered index
     same(base['states'][:, [int(np.where(np.array(li) == perm[li][k])[0][0]) for k in range(len(li))]], o['states'], 'atom permutation: states are not the permuted columns')
     rel = lambda rows: sorted((inv[r[0]],) + tuple(r[1:]) for r in rows)  # noqa: E731
-    same(rel(base['events']), o['events'], 'atom permutation: events are not the relabelled events')
-    same(rel(base['jumps']), o['jumps'], 'atom permutation: jumps are not the relabelled jumps')
+    for key in [k_ for k_ in base if k_.startswith('events') or k_.startswith('jumps')]:
+        same(rel(base[key]), o.get(key), f'atom permutation: {key} are not the relabelled rows')
     compare(o, 'atom permutation', keys=['matrix', 'tmatrix', 'jump_diffusivity', 'rdf', 'tracer'] + [k for k in base if k.startswith('n_')])
     # (d) permutation of the sites
     sg = rng.permutation(len(sp))  # sites'[j] = sites[sg[j]]
@@ -372,8 +382,10 @@ def replay_metamorphic(inputs):
     exp_states = np.where(base['states'] == -1, -1, tau[np.clip(base['states'], 0, None)])
     same(exp_states, o['states'], 'site permutation: states are not relabelled by the inverse permutation')
     rs = lambda x: -1 if x == -1 else int(tau[x])  # noqa: E731
-    same(sorted((r[0], rs(r[1]), rs(r[2]), rs(r[3]), rs(r[4]), r[5]) for r in base['events']), o['events'], 'site permutation: events are not the relabelled events')
-    same(sorted((r[0], rs(r[1]), rs(r[2]), r[3], r[4]) for r in base['jumps']), o['jumps'], 'site permutation: jumps are not the relabelled jumps')
+    for key in [k_ for k_ in base if k_.startswith('events')]:
+        same(sorted((r[0], rs(r[1]), rs(r[2]), rs(r[3]), rs(r[4]), r[5]) for r in base[key]), o.get(key), f'site permutation: {key} are not the relabelled events')
+    for key in [k_ for k_ in base if k_.startswith('jumps')]:
+        same(sorted((r[0], rs(r[1]), rs(r[2]), r[3], r[4]) for r in base[key]), o.get(key), f'site permutation: {key} are not the relabelled jumps')
     if 'matrix' in base and 'matrix' in o:
         same(base['matrix'][np.ix_(sg, sg)], o['matrix'], 'site permutation: jump matrix is not the permuted matrix')
     compare(o, 'site permutation', keys=['jump_diffusivity', 'rdf', 'tracer'] + [k for k in base if k.startswith('n_')])
@@ -412,6 +424,17 @@ def replay_metamorphic(inputs):
                         bad.append(f'optimal path exists in only one representation ({c1} vs {c2})')
                 else:
                     same(c1, c2, 'optimal path cost changed under the voxel shift', tol=1e-9)
+                # percolating path over the visited voxels as peaks: the shift reorders the peaks (scan order), the optimal cost must not change
+                from gemdat.path import optimal_percolating_path
+                pk1 = visited[:8]
+                pk2 = np.array(sorted(tuple(int(x) for x in (p_ + kv) % dims) for p_ in pk1))
+                for direction in ('x', 'yz'):
+                    pp1 = optimal_percolating_path(F1, peaks=pk1, percolate=direction)
+                    pp2 = optimal_percolating_path(F2, peaks=pk2, percolate=direction)
+                    if (pp1 is None) != (pp2 is None):
+                        bad.append(f'a percolating path along {direction} exists in only one of the two shifted representations')
+                    elif pp1 is not None:
+                        same(float(pp1.total_energy), float(pp2.total_energy), f'optimal percolating path cost along {direction} changed under the voxel shift', tol=1e-9)
         except ImportError:
             pass
     # (f) the same with samples exactly on voxel faces and on the cell faces: a dyadic grid (8 voxels per axis, coordinates k/16, shifts j/8) makes
@@ -433,6 +456,55 @@ def replay_metamorphic(inputs):
             bad.append('density volume with face samples does not count every sample once')
     else:
         bad.append(f'8 A cubic cell at resolution 1 A gives grid {v1.shape}, expected (8, 8, 8)')
+    # (g) state / inner-state histories fed directly to the event and jump builders: permuting the atoms (columns) relabels the jumps for every
+    #     minimal residence (a pending candidate or departure must not leak from one atom to the next)
+    from gemdat.jumps import _generic_transitions_to_jumps
+    from gemdat.transitions import _calculate_transition_events
+    for h in range(25):
+        Th, Nh, Sh = 30, 3, 3
+        stt = np.empty((Th, Nh), dtype=int)
+        cur = rng.integers(-1, Sh, size=Nh)
+        lo_ = rng.integers(0, Th - 6, size=Nh)  # every atom is active (changes state) only inside its own time window
+        hi_ = lo_ + rng.integers(4, 14, size=Nh)
+        for t in range(Th):
+            act = (t >= lo_) & (t < hi_)
+            cur = np.where(act & (rng.random(Nh) < 0.5), rng.integers(-1, Sh, size=Nh), cur)
+            stt[t] = cur
+        # inner-site state per visit: never reached / reached on arrival / reached after a while (a visit that ends the atom's activity in the
+        # outer shell leaves a pending candidate jump)
+        inn = np.full_like(stt, -1)
+        for a_ in range(Nh):
+            t = 0
+            while t < Th:
+                u_ = t
+                while u_ < Th and stt[u_, a_] == stt[t, a_]:
+                    u_ += 1
+                if stt[t, a_] != -1:
+                    r_ = rng.random()
+                    if r_ < 0.3:
+                        inn[t:u_, a_] = stt[t, a_]
+                    elif r_ < 0.6:
+                        inn[t + int(rng.integers(0, max(1, u_ - t))):u_, a_] = stt[t, a_]
+                t = u_
+        pm = rng.permutation(Nh)
+
+        def jumps_of(s_, i_, m_):
+            class _T:
+                events = _calculate_transition_events(atom_sites=s_, atom_inner_sites=i_)
+            try:
+                df = _generic_transitions_to_jumps(_T, minimal_residence=m_)
+            except ValueError:
+                return []
+            return sorted(tuple(int(x) for x in r) for r in df[['atom index', 'start site', 'destination site', 'start time', 'stop time']].to_numpy())
+        if not (stt[:-1] != stt[1:]).any():
+            continue
+        for m_ in (0, 1, 3):
+            j0 = jumps_of(stt, inn, m_)
+            j1 = jumps_of(stt[:, pm], inn[:, pm], m_)
+            back = sorted((int(pm[r[0]]),) + tuple(r[1:]) for r in j1)
+            if back != j0:
+                bad.append(f'jumps (residence {m_}) of the atom-permuted histories are not the relabelled jumps: states={stt.T.tolist()} inner={inn.T.tolist()} perm={pm.tolist()}')
+                break
     return {'reproduced': bool(bad), 'detail': f'seed={seed} lattice={np.round(lat.parameters, 2).tolist()}: ' + '; '.join(bad[:4])}
 
 
